@@ -3,70 +3,9 @@
    the 128 longs add up to 0 mod 2^32) - for every 512-byte block and every long-aligned checksum offset
    (20 for header-type blocks, 0 for bitmap blocks, 8 for RDB blocks). *)
 From Coq Require Import ZArith List Bool Lia.
-From ADF Require Import CPrelude Generated.Leaf Spec.Decode Proofs.CalendarP.
+From ADF Require Import CPrelude Generated.Leaf Spec.Decode Proofs.CalendarP Proofs.BytesP.
 Import ListNotations.
 Local Open Scope Z_scope.
-
-(* ---- byte arrays ---- *)
-Definition put_be32 (b : list Z) (off v : Z) : list Z :=
-  updZ (updZ (updZ (updZ b off (v / 16777216 mod 256)) (off + 1) (v / 65536 mod 256)) (off + 2) (v / 256 mod 256)) (off + 3) (v mod 256).
-
-Lemma upd_nat_length {A} (l : list A) i v : length (upd_nat l i v) = length l.
-Proof. revert i; induction l as [|h t IH]; intros [|i]; simpl; auto. Qed.
-
-Lemma updZ_length l i v : length (updZ l i v) = length l.
-Proof. unfold updZ. destruct (i <? 0); [reflexivity|apply upd_nat_length]. Qed.
-
-Lemma nth_upd_nat_same (l : list Z) i v : (i < length l)%nat -> nth i (upd_nat l i v) 0 = v.
-Proof. revert i; induction l as [|h t IH]; intros [|i] H; simpl in *; try lia; auto. apply IH; lia. Qed.
-
-Lemma nth_upd_nat_other (l : list Z) i j v : i <> j -> nth j (upd_nat l i v) 0 = nth j l 0.
-Proof.
-  revert i j; induction l as [|h t IH]; intros [|i] [|j] H; simpl; auto; try congruence.
-Qed.
-
-Lemma nthZ_updZ_same l i v : 0 <= i < Z.of_nat (length l) -> nthZ (updZ l i v) i = v.
-Proof.
-  intros H. unfold nthZ, updZ. destruct (Z.ltb_spec i 0); [lia|].
-  apply nth_upd_nat_same. lia.
-Qed.
-
-Lemma nthZ_updZ_other l i j v : i <> j -> nthZ (updZ l i v) j = nthZ l j.
-Proof.
-  intros H. unfold nthZ, updZ. destruct (Z.ltb_spec j 0); [reflexivity|].
-  destruct (Z.ltb_spec i 0); [reflexivity|].
-  apply nth_upd_nat_other. lia.
-Qed.
-
-Lemma be32_put_same b off v : 0 <= off -> off + 3 < Z.of_nat (length b) -> 0 <= v < 2 ^ 32 ->
-  be32_at (put_be32 b off v) off = v.
-Proof.
-  intros H0 H1 Hv. unfold be32_at, put_be32.
-  rewrite (nthZ_updZ_same _ (off + 3)) by (rewrite !updZ_length; lia).
-  rewrite (nthZ_updZ_other _ (off + 3) (off + 2)) by lia.
-  rewrite (nthZ_updZ_same _ (off + 2)) by (rewrite !updZ_length; lia).
-  rewrite (nthZ_updZ_other _ (off + 3) (off + 1)) by lia.
-  rewrite (nthZ_updZ_other _ (off + 2) (off + 1)) by lia.
-  rewrite (nthZ_updZ_same _ (off + 1)) by (rewrite !updZ_length; lia).
-  rewrite (nthZ_updZ_other _ (off + 3) off) by lia.
-  rewrite (nthZ_updZ_other _ (off + 2) off) by lia.
-  rewrite (nthZ_updZ_other _ (off + 1) off) by lia.
-  rewrite (nthZ_updZ_same _ off) by lia.
-  change (2 ^ 32) with 4294967296 in Hv.
-  assert (v / 16777216 mod 256 = v / 16777216) as -> by (apply Z.mod_small; split; [apply Z.div_pos; lia|apply Z.div_lt_upper_bound; lia]).
-  pose proof (Z.div_mod v 256 ltac:(lia)) as E1.
-  pose proof (Z.div_mod (v / 256) 256 ltac:(lia)) as E2.
-  pose proof (Z.div_mod (v / 256 / 256) 256 ltac:(lia)) as E3.
-  rewrite Z.div_div in E2, E3 by lia. rewrite Z.div_div in E3 by lia.
-  change (256 * 256) with 65536 in *. change (65536 * 256) with 16777216 in *.
-  lia.
-Qed.
-
-Lemma be32_put_other b off v i : (i + 3 < off \/ off + 3 < i) -> be32_at (put_be32 b off v) i = be32_at b i.
-Proof.
-  intros H. unfold be32_at, put_be32.
-  rewrite !nthZ_updZ_other by lia. reflexivity.
-Qed.
 
 (* ---- the loop of adfNormalSum ---- *)
 Fixpoint sum_skip (b : list Z) (skip : Z) (k : nat) : Z :=
